@@ -531,6 +531,49 @@ def features(d=None):
         r.headers.get('cache-control') == 'no-cache',
         lambda r: r.status == 200 and 'last-modified' not in r.headers and
         'cache-control' not in r.headers)
+    # (1.15: "last-modified" and "cache-control: no-cache" on every GET) -
+    # every readable route, with results and with none
+    unknown_name = 'no-such-name-anywhere'
+    for label, path, frm in (
+            ('providers', '/resource_providers', 0),
+            ('providers, no match',
+             '/resource_providers?name=%s' % unknown_name, 0),
+            ('providers, unknown uuid filter',
+             '/resource_providers?uuid=%s' % world.N, 0),
+            ('one provider', '/resource_providers/%s' % R, 0),
+            ('one inventory',
+             '/resource_providers/%s/inventories/VCPU' % R, 0),
+            ('provider usages', '/resource_providers/%s/usages' % R, 0),
+            ('provider usages, nothing used',
+             '/resource_providers/%s/usages' % BARE, 0),
+            ('provider aggregates',
+             '/resource_providers/%s/aggregates' % S, 1),
+            ('provider aggregates, none',
+             '/resource_providers/%s/aggregates' % BARE, 1),
+            ('provider traits', '/resource_providers/%s/traits' % R, 6),
+            ('provider traits, none',
+             '/resource_providers/%s/traits' % BARE, 6),
+            ('provider allocations',
+             '/resource_providers/%s/allocations' % R, 0),
+            ('provider allocations, none',
+             '/resource_providers/%s/allocations' % BARE, 0),
+            ('consumer allocations', '/allocations/%s' % K1, 0),
+            ('consumer allocations, none', '/allocations/%s' % K3, 0),
+            ('traits', '/traits', 6),
+            ('traits, no match', '/traits?name=startswith:CUSTOM_ZZZ', 6),
+            ('classes', '/resource_classes', 2),
+            ('one class', '/resource_classes/VCPU', 2),
+            ('usages', '/usages?project_id=%s' % PROJECT, 9),
+            ('usages, unknown project', '/usages?project_id=nobody', 9),
+            ('candidates', '/allocation_candidates?resources=VCPU:1', 10),
+            ('candidates, none',
+             '/allocation_candidates?resources=VCPU:99999', 10)):
+        add('1.15 last-modified and cache-control on GET (%s)' % label, 15,
+            lambda v, s, path=path: Req('GET', path, s),
+            lambda r: r.status == 200 and 'last-modified' in r.headers and
+            r.headers.get('cache-control') == 'no-cache',
+            lambda r: r.status == 200 and 'last-modified' not in r.headers
+            and 'cache-control' not in r.headers, frm)
     add('1.15 last-modified on PUT with body', 15,
         lambda v, s: Req('PUT', '/resource_providers/%s' % E, s,
                          {'name': 'empty2'}),
